@@ -10,5 +10,13 @@ CONSTANTS
   DbProbeWithColl = FALSE
   PrivMapped = FALSE
   SDBs = {"default", "", "other"}
-  Shapes = {"none", "exact", "wholedb", "unrelated", "both"}
+  Shapes = {"none", "exact", "wholedb", "unrelated", "both", "chain", "swap"}
   KindsUsed = {"createDatabase", "dropDatabase", "alterDatabase", "flush", "createIndex", "dropIndex", "alterIndex", "loadCollection", "releaseCollection", "loadPartitions", "releasePartitions", "createCredential", "deleteCredential", "updateCredential", "createRole", "dropRole", "operateUserRole", "operatePrivilege", "createCollection", "dropCollection", "createPartition", "dropPartition", "insert", "delete", "dropPartitionMsg", "dropCollectionMsg", "import", "waitDatabase", "waitCollection", "waitPartition"}
+  StaleMemo = FALSE
+  HKinds = {"createIndex", "createPartition", "insert", "alterDatabase"}
+  HSDBs = {"default", "other"}
+  HColls = {"c1", "c2"}
+  HUpds = {"exact1", "exact2", "retarget", "wholedb", "wholedb2", "unrelated", "chaindb", "swap"}
+  HUDBs = {"default", "other"}
+  Pattern = "any"
+  MaxSteps = 3
